@@ -252,10 +252,32 @@ def page_release(R, fns, P=None):
     deact = loop_with("aws_array_list_pop_back", "active_pages")
     R.check(bool(purge) and all(e not in RU.reach_from(f, fr) for e in purge) and any(fr in RU.reach_from(f, e) for e in purge), "PAGE-RELEASE", "free-list-purged-first", where(f, fr),
             "chunks of the page are purged from the free list before the page is released", "the page is released without purging its chunks from the free list: freed memory would be handed out again")
+    def window(e):
+        """(chunk var, lower bound node, upper bound node) of the range test `chunk >= LO && chunk < HI` guarding e"""
+        lo = hi = None
+        for c_, p_, b_ in RU.guards(f, e, dom):
+            g_ = RU.cmp_norm(f, c_, p_)
+            if not g_ or g_[2] is None:
+                continue
+            l_, r_ = RU.uncast(f, g_[0]), RU.uncast(f, g_[2])
+            if l_ is None or r_ is None:
+                continue
+            pt = lambda n_: bool(f.ty(n_).get("ptr"))
+            if g_[1] == ">=" and l_["k"] == "var" and pt(l_):
+                lo = (l_["n"], g_[2])
+            elif g_[1] == "<=" and r_["k"] == "var" and pt(r_):
+                lo = (r_["n"], g_[0])
+            elif g_[1] == "<" and l_["k"] == "var" and pt(l_):
+                hi = (l_["n"], g_[2])
+            elif g_[1] == ">" and r_["k"] == "var" and pt(r_):
+                hi = (r_["n"], g_[0])
+        if lo and hi and lo[0] == hi[0]:
+            return lo[0], lo[1], hi[1]
+        return None
     for e in purge:
         gk = [f.show(f.d(c)) for c, p, b in RU.guards(f, e, dom) if p]
-        R.check(any(">=" in g and "page_start" in g for g in gk) and any("<" in g and "page_end" in g for g in gk), "PAGE-RELEASE", "purge-range-test", where(f, e),
-                "only chunks inside [page_start, page_end) are purged (%s)" % gk, "purge is not limited to / does not cover the page's own range: %s" % gk)
+        R.check(window(e) is not None, "PAGE-RELEASE", "purge-range-test", where(f, e),
+                "only chunks inside a half-open address window are purged (%s)" % gk, "purge is not limited to an address window [lo, hi) of the chunk: %s" % gk)
     # the purge window covers the whole page (NUM): it starts at or before the first chunk and ends at or after the end of
     # the page, so no chunk of the page survives on the free list (the 32-byte class has a chunk ending exactly at the end)
     from sa.num import Num, Poly, Limit, entails
@@ -280,7 +302,11 @@ def page_release(R, fns, P=None):
             sts = {}
         okw, det, cnt = True, "", 0
         for st in sts.get(purge[0].node["id"], []):
-            pgv, psv, pev = st.env.get("v:page"), st.env.get("v:page_start"), st.env.get("v:page_end")
+            w_ = window(purge[0])
+            pgn = RU.arg(f, fr.node, 0) if fr.node.get("a") else None
+            pgv = num.val(pgn, st) if pgn is not None else None
+            psv = num.val(w_[1], st) if w_ else None
+            pev = num.val(w_[2], st) if w_ else None
             cnt += 1
             if pgv is None or psv is None or pev is None:
                 okw, det = False, "page / page_start / page_end not tracked"
